@@ -106,6 +106,21 @@ Lemma parameter_package_resolved : parser_parameter_package_resolved = true.
 Proof. reflexivity. Qed.
 Lemma nesting_depth_bounded : parser_nesting_depth_bounded = true.
 Proof. reflexivity. Qed.
+(* five more: the column lookup of GRANT visits every TYPE once (C16-F20, 2a6677897 - the lookup added by d88fceb13
+   followed field sets to depth 32 along every path), field sets included along many paths are searched / expanded
+   once (C16-F21, 8994eec81), a table declared in place gets its comment whoever builds it (C16-F22, 6660b8410), a blob
+   field needs the table sys.BLOB (C16-F23, ef5455249), REVOKE of a role is refused by the analyser, with a position
+   (C16-F24, 1d9ef77e6) *)
+Lemma grant_column_lookup_visits_once : parser_grant_column_lookup_visits_once = true.
+Proof. reflexivity. Qed.
+Lemma field_sets_expanded_once : parser_field_sets_expanded_once = true.
+Proof. reflexivity. Qed.
+Lemma nested_table_comments_applied : parser_nested_table_comments_applied = true.
+Proof. reflexivity. Qed.
+Lemma blob_table_checked : parser_blob_table_checked = true.
+Proof. reflexivity. Qed.
+Lemma revoke_role_refused_by_analyser : parser_revoke_role_refused_by_analyser = true.
+Proof. reflexivity. Qed.
 
 (* the headline: the compiler model never panics, on any schema (no guard, not even wf) *)
 Theorem compiler_model_total : forall a, compile16 a <> VPanic.
